@@ -1252,7 +1252,7 @@ func stateAnyCommentStart(s *Scanner, c byte) state {
 		s.annotation = annotationNone
 		s.step = stateInlineComment
 		return scanContinue
-	} else if s.data[s.index] == '#' { // third #
+	} else if s.index < s.dataSize && s.data[s.index] == '#' { // third #
 		s.annotation = annotationNone
 		s.step = stateMultiLineComment
 		return scanContinue
